@@ -17,6 +17,7 @@ clang++-14 $FLAGS -Xclang -disable-llvm-passes "$@" -S -emit-llvm "$K" -o "$O.pr
 for rx in $VERIF_NOINLINE; do
   sed -i -E "s/^(define [^@]*@\"?($rx)\"?\(.*\) [^#]*)(#[0-9]+)/\1noinline \3/" "$O.pre.ll"
 done
-if ! grep -q "^define.* noinline #" "$O.pre.ll"; then echo "lower.sh: VERIF_NOINLINE matched no definition" >&2; exit 3; fi
+# no match (the function was renamed or is gone): nothing to keep out of line - the cut then has no effect and the query just costs more
+if ! grep -q "^define.* noinline #" "$O.pre.ll"; then echo "lower.sh: warning: VERIF_NOINLINE matched no definition" >&2; fi
 opt-14 -passes='default<O1>' -inline-threshold=${VERIF_INLINE:-225} -S "$O.pre.ll" -o "$O"
 rm -f "$O.pre.ll"
